@@ -1,9 +1,12 @@
 """C09 - Compaction never loses or duplicates rows, even across crashes.
 
 Proof: coq/theories/Compaction (C09_crash_recover: for every partition, configuration and history of
-crashed process lifetimes with any crash point in any job, one later cycle restores the rows modulo
-dedup; C09_no_early_delete; C09_recover_any_prefix; C09_split_partition; C09_filter_excludes_tracked;
-C09_adaptive_retry_refuted = the excluded class really duplicates rows).
+process lifetimes with any crash OR subprocess-kill point in any job - including a kill after the upload
+followed by the adaptive retry logic - one later cycle restores the rows modulo dedup;
+C09_recover_any_pending (the invariant over several interrupted jobs at once); C09_no_early_delete;
+C09_recover_any_prefix; C09_split_partition; C09_filter_excludes_tracked).  The former refutation
+(retry after a kill past the upload duplicated rows) was fixed in /repo by 5306c6c; its witness stays in
+corpus/C09 and in C09_kill_after_upload_recovers.
 Tie 1 (translator): the order of the durable mutations on the success path of Job.Run, the branches
 the manifest deletions sit in, the order inside recoverManifest and the batch constants are re-extracted
 with go/ast (tools/lib_crash/ctxcalls + vlib.goast/go_eval_consts) into coq/gen/Params_Compaction.v;
@@ -16,6 +19,7 @@ import hashlib
 import json
 import os
 import random
+import re
 import time
 
 import vlib
@@ -24,9 +28,9 @@ from vlib import cn, cbool, clist
 AREA = "Compaction"
 P = "Arc.Compaction.Props"
 O = "Arc.Compaction.Obligations"
-THEOREMS = [(P, "C09_crash_recover"), (P, "C09_recover_any_prefix"), (P, "C09_no_early_delete"),
+THEOREMS = [(P, "C09_crash_recover"), (P, "C09_recover_any_pending"), (P, "C09_recover_any_prefix"), (P, "C09_no_early_delete"),
             (P, "C09_recover_no_early_delete"), (P, "C09_split_partition"), (P, "C09_filter_excludes_tracked"),
-            (P, "C09_adaptive_retry_refuted"), (P, "C09_relb_sound"), (P, "C09_oracle_hypothesis_satisfiable"),
+            (P, "C09_kill_after_upload_recovers"), (P, "C09_relb_sound"), (P, "C09_oracle_hypothesis_satisfiable"),
             (O, "C09_job_order_obligations"), (O, "C09_deployed_crash_recover"), (O, "C09_order_necessary")]
 MODULES = [P, O]
 TIE_NAME = ("C09 correspondence (compaction.Manager.RunCompactionCycle / Job.Run / ManifestManager recovery vs "
@@ -109,11 +113,22 @@ def translate_params():
     rec_inputs_first = max(e["line"] for e in loop_del) < min(e["line"] for e in final_dm)
     rec_check_first = min(e["line"] for e in out_exists) < min(e["line"] for e in loop_del)
 
-    ad = ctxcalls("internal/compaction/manager.go", "compactFilesAdaptively", "^(CompactPartition|ClassifySubprocessError|compactFilesAdaptively|RecoverOrphanedManifests|GetFilesInManifests|filterCandidateFiles)$")
+    ad = ctxcalls("internal/compaction/manager.go", "compactFilesAdaptively",
+                  "^(CompactPartition|ClassifySubprocessError|compactFilesAdaptively|RecoverOrphanedManifests|GetFilesInManifests|filterCandidateFiles|invalidateCache)$")
     consts = ad["consts"]
     if "maxDepth" not in consts or "minBatchSize" not in consts:
         raise vlib.TieBroken("compactFilesAdaptively: local constants maxDepth/minBatchSize not found")
-    retry_consults = any(e["callee"] in ("RecoverOrphanedManifests", "GetFilesInManifests", "filterCandidateFiles") for e in ad["events"])
+    aev = ad["events"]
+    first = lambda name: min([e["line"] for e in aev if e["callee"] == name] or [0])
+    attempt, lookup, inval = first("CompactPartition"), first("GetFilesInManifests"), first("invalidateCache")
+    retries = [e["line"] for e in aev if e["callee"] == "compactFilesAdaptively"]
+    retry_consults = lookup > 0
+    msrc = open(os.path.join(vlib.REPO, "internal/compaction/manager.go")).read().split("\n")
+    between = "\n".join(msrc[lookup:min(retries) - 1]) if (lookup and retries) else ""
+    # ... and a tracked file of the batch makes it return before the split
+    returns = bool(re.search(r"for _, \w+ := range files \{\s*if _, (\w+) := \w+\[\w+\]; \1 \{.*?return err", between, re.S))
+    retry_precedes = bool(retry_consults and retries and attempt < lookup < min(retries) and returns)
+    retry_inval = bool(retry_consults and attempt < inval < lookup)
     vals = vlib.go_eval_consts([
         ("max_depth", "internal/compaction/manager.go", consts["maxDepth"]),
         ("min_batch", "internal/compaction/manager.go", consts["minBatchSize"]),
@@ -133,12 +148,15 @@ def translate_params():
     body += "Definition recover_deletes_inputs_before_manifest : bool := %s.\n" % cbool(rec_inputs_first)
     body += "(* MinFilesPerBatch, DefaultMaxFilesPerBatch, MaxAllowedFilesPerBatch (tier.go); maxDepth (compactFilesAdaptively) *)\n"
     body += "Definition code_params : params := mkParams %d %d %d %d.\n" % (vals["min_batch"], vals["default_batch"], vals["max_allowed"], vals["max_depth"])
-    body += "(* informational: compactFilesAdaptively consults the manifests before a retry *)\n"
+    body += "(* compactFilesAdaptively: manifest lookup between the failed attempt and the retry on halves *)\n"
     body += "Definition adaptive_retry_consults_manifests : bool := %s.\n" % cbool(retry_consults)
+    body += "Definition adaptive_retry_check_precedes_retry : bool := %s.\n" % cbool(retry_precedes)
+    body += "Definition adaptive_retry_invalidates_cache_first : bool := %s.\n" % cbool(retry_inval)
     vlib.write_params("Params_Compaction", body)
     return {"job_run_order": order, "manifest_delete_guarded": guarded, "upload_failure_deletes_manifest": upfail,
             "recover_inputs_before_manifest": rec_inputs_first, "recover_check_first": rec_check_first,
-            "params": vals, "adaptive_retry_consults_manifests": retry_consults}
+            "params": vals, "adaptive_retry_consults_manifests": retry_consults, "adaptive_retry_check_precedes_retry": retry_precedes,
+            "adaptive_retry_invalidates_cache_first": retry_inval}
 
 
 # ---------------------------------------------------------------------------------------
@@ -315,11 +333,62 @@ HEADER = ("From Coq Require Import List NArith Bool Arith.\nFrom Arc Require Imp
           "From ArcGen Require Import Params_Compaction.\nImport ListNotations.\n")
 
 
+def run_harness_cached(pid, pkg, test, harness_files, cases, rewrites=None, tags="verif", tag="run", timeout=1800):
+    """Like vlib.run_go_harness, but the (slow to link, DuckDB/cgo) test binary is built once per
+    state of the sources: it is keyed by a hash of EVERY file of the repository working tree plus
+    the overlay files, so any change of the code under test or of the harness rebuilds it."""
+    overlay = {}
+    for rel, subs in (rewrites or {}).items():
+        overlay[rel] = vlib.rewrite_source(rel, subs, pid)
+    for virt, real in harness_files.items():
+        overlay[virt] = real if os.path.isabs(real) else os.path.join(vlib.ROOT, real)
+    h = hashlib.sha1()
+    h.update(("%s|%s|%s" % (pkg, tags, vlib.REPO)).encode())
+    for dp, dns, fns in os.walk(vlib.REPO):
+        dns[:] = sorted(d for d in dns if d != ".git")
+        for fn in sorted(fns):
+            fp = os.path.join(dp, fn)
+            try:
+                data = open(fp, "rb").read()
+            except OSError:
+                continue
+            h.update(os.path.relpath(fp, vlib.REPO).encode() + b"\0" + hashlib.sha1(data).digest())
+    for virt in sorted(overlay):
+        h.update(virt.encode() + b"\0" + hashlib.sha1(open(overlay[virt], "rb").read()).digest())
+    key = h.hexdigest()[:20]
+    os.makedirs(vlib.BIN, exist_ok=True)
+    exe = os.path.join(vlib.BIN, "%s_%s.test" % (pid, key))
+    with vlib.Lock("gobin_" + pid):
+        if not os.path.exists(exe):
+            for old in os.listdir(vlib.BIN):
+                if old.startswith(pid + "_") and old.endswith(".test"):
+                    os.remove(os.path.join(vlib.BIN, old))
+            ov = vlib.overlay_file(overlay, pid + "_bin")
+            t0 = time.time()
+            rc, out = vlib.sh(["go", "test", "-c", "-tags", tags, "-vet=off", "-overlay", ov, "-o", exe, pkg], cwd=vlib.REPO, env=vlib.go_env(), timeout=timeout)
+            vlib.log("go test -c %s: rc=%d in %.1fs" % (pkg, rc, time.time() - t0))
+            if rc != 0 or not os.path.exists(exe):
+                raise vlib.TieBroken("%s harness no longer builds against the current source (rc=%d):\n%s" % (pid, rc, out[-4000:]))
+    d = os.path.join(vlib.WORK, "cases", pid)
+    os.makedirs(d, exist_ok=True)
+    cin, cout = os.path.join(d, tag + "_in.json"), os.path.join(d, tag + "_out.json")
+    json.dump(cases, open(cin, "w"))
+    if os.path.exists(cout):
+        os.remove(cout)
+    env = vlib.go_env({"VERIF_CASES": cin, "VERIF_OUT": cout})
+    t0 = time.time()
+    rc, out = vlib.sh([exe, "-test.run", test, "-test.count=1"], cwd=os.path.join(vlib.REPO, pkg.lstrip("./")), env=env, timeout=timeout)
+    vlib.log("%s %s: rc=%d in %.1fs" % (os.path.basename(exe), test, rc, time.time() - t0))
+    if rc != 0 or not os.path.exists(cout):
+        raise vlib.TieBroken("%s harness failed against the current source (rc=%d):\n%s" % (pid, rc, out[-4000:]))
+    return json.load(open(cout))
+
+
 def run_impl(cases, tag, units=None):
     units = units or {}
     inp = {"cases": [to_harness(c) for c in cases], "split": units.get("split", []),
            "classify": units.get("classify", []), "filter": units.get("filter", [])}
-    out = vlib.run_go_harness("C09", PKG, "^TestVerifCompaction$", HARNESS, inp, rewrites=REWRITES, tags=TAGS, tag=tag, timeout=1800)
+    out = run_harness_cached("C09", PKG, "^TestVerifCompaction$", HARNESS, inp, rewrites=REWRITES, tags=TAGS, tag=tag, timeout=1800)
     if len(out["cases"]) != len(cases):
         raise vlib.TieBroken("C09 harness returned %d results for %d cases" % (len(out["cases"]), len(cases)))
     for c, o in zip(cases, out["cases"]):
@@ -332,13 +401,34 @@ def run_impl(cases, tag, units=None):
     return out
 
 
+def par_check(pid, header, ctype, terms, preds, name, workers=4):
+    """coq_check_cases on `workers` slices in parallel coqc processes; indices are re-based."""
+    from concurrent.futures import ThreadPoolExecutor
+    if len(terms) < 40:
+        return vlib.coq_check_cases(pid, header, ctype, terms, preds, chunk=1000, name=name)
+    size = (len(terms) + workers - 1) // workers
+    slices = [(off, terms[off:off + size]) for off in range(0, len(terms), size)]
+
+    def one(item):
+        off, part = item
+        r = vlib.coq_check_cases(pid, header, ctype, part, preds, chunk=size + 1, name="%s_p%d" % (name, off))
+        return {k: [off + i for i in v] for k, v in r.items()}
+    res = {k: [] for k in preds}
+    with ThreadPoolExecutor(max_workers=workers) as ex:
+        for r in ex.map(one, slices):
+            for k, v in r.items():
+                res[k] += v
+    return res
+
+
 def eval_cases(cases, obs, name):
     terms = [case_to_coq(c, o) for c, o in zip(cases, obs)]
-    return vlib.coq_check_cases("C09", HEADER, "ccase", terms,
-                                {"agree": "case_agrees", "oracle": "case_oracle", "moracle": "case_model_oracle"}, chunk=400, name=name)
+    return par_check("C09", HEADER, "ccase", terms, {"agree": "case_agrees", "oracle": "case_oracle", "moracle": "case_model_oracle"}, name)
 
 
-UNIT_SPLIT = [[n, mx] for mx in (0, 1, 2, 3, 4, 5, 7, 30, 499, 500, 501, 1000) for n in (0, 1, 2, 3, 4, 5, 6, 7, 8, 9, 10, 11, 29, 30, 31, 32, 59, 60, 61, 91, 501, 1001)]
+UNIT_SPLIT = [[n, mx] for mx in (0, 1, 2, 3, 4, 5, 7, 30, 499, 500, 501, 1000) for n in (0, 1, 2, 3, 4, 5, 6, 7, 8, 9, 10, 11, 29, 30, 31, 32, 59, 60, 61, 91)] + \
+             [[501, 500], [1001, 500], [1001, 1000], [501, 0]]
+UNIT_SPLIT_THOROUGH = [[n, mx] for mx in (2, 3, 30, 499, 500, 501, 1000) for n in (501, 999, 1000, 1001, 1499)]
 UNIT_CLASSIFY = [
     ({"err": "subprocess failed: signal: killed (stderr: )", "stderr": ""}, True),
     ({"err": "subprocess failed: signal: segmentation fault (stderr: )", "stderr": ""}, True),
@@ -427,7 +517,26 @@ def run(res, tier, seed):
         res.stage("translate_params", t0)
     res.cov["params"] = params
 
-    failed = vlib.std_proof_stage(res, "C09", AREA, MODULES, THEOREMS, extra_targets=["theories/Compaction/Obligations.vo"])
+    # cases are generated first so that the Go harness can run while coqc checks the theorems
+    npart = 26 if tier == "quick" else 400
+    cases = witness_cases() + gen_cases(rng, npart, tier)
+    corpus_dir = os.path.join(vlib.ROOT, "corpus", "C09")
+    if os.path.isdir(corpus_dir):
+        for fn in sorted(os.listdir(corpus_dir)):
+            obj = json.load(open(os.path.join(corpus_dir, fn)))
+            if obj.get("case"):
+                cc = dict(obj["case"], id=800000 + len(cases), corpus=fn)
+                cc["cycles"] = [[tuple(o) for o in ocs] for ocs in cc["cycles"]]
+                cc.setdefault("soon", [False] * len(cc["cycles"]))
+                cases.insert(0, cc)
+    units = {"split": UNIT_SPLIT + (UNIT_SPLIT_THOROUGH if tier == "thorough" else []), "classify": [u for u, _ in UNIT_CLASSIFY],
+             "filter": gen_filter_units(rng, 120 if tier == "quick" else 1500)}
+    from concurrent.futures import ThreadPoolExecutor
+    pool = ThreadPoolExecutor(max_workers=1)
+    t1 = time.time()
+    fut = pool.submit(run_impl, cases, tier, units)
+
+    failed = vlib.std_proof_stage(res, "C09", AREA, MODULES, THEOREMS, extra_targets=["gen/Params_Compaction.vo", "theories/Compaction/Obligations.vo"])
     res.cov["trusted_base"] += [
         "DuckDB COPY of buildCompactionQuery as Section oracle `compact` with hypothesis rel b l (compact b l) (permutation without dedup metadata; "
         "sub-multiset covering every (tags,time) key with it) - validated against real DuckDB by the per-case oracle on every generated partition",
@@ -438,24 +547,20 @@ def run(res, tier, seed):
         "tools/lib_crash/ctxcalls (go/ast control-context extraction of Job.Run / recoverManifest / compactFilesAdaptively)",
     ]
 
-    npart = 36 if tier == "quick" else 300
-    t1 = time.time()
-    cases = witness_cases() + gen_cases(rng, npart, tier)
-    corpus_dir = os.path.join(vlib.ROOT, "corpus", "C09")
-    if os.path.isdir(corpus_dir):
-        for fn in sorted(os.listdir(corpus_dir)):
-            obj = json.load(open(os.path.join(corpus_dir, fn)))
-            if obj.get("case"):
-                cc = dict(obj["case"], id=800000 + len(cases))
-                cc["cycles"] = [[tuple(o) for o in ocs] for ocs in cc["cycles"]]
-                cases.insert(0, cc)
-    units = {"split": UNIT_SPLIT, "classify": [u for u, _ in UNIT_CLASSIFY], "filter": gen_filter_units(rng, 150 if tier == "quick" else 1500)}
-    out = run_impl(cases, tier, units)
+    if tier == "thorough" and hasattr(vlib, "coqchk_stage"):
+        ok, _ = vlib.coqchk_stage(res, MODULES)
+        if not ok:
+            failed.append(("coqchk", "coqchk did not accept the compiled development"))
+
+    out = fut.result()
+    pool.shutdown()
     obs = out["cases"]
     res.stage("impl_harness", t1)
     t2 = time.time()
-    r = eval_cases(cases, obs, "Cases_C09_%s" % tier)
-    unit_bad = eval_units(out, units)
+    with ThreadPoolExecutor(max_workers=2) as ex2:          # cases and unit cases in parallel coqc processes
+        fu = ex2.submit(eval_units, out, units)
+        r = eval_cases(cases, obs, "Cases_C09_%s" % tier)
+        unit_bad = fu.result()
     res.stage("coq_eval", t2)
 
     dis, orf, morf = set(r["agree"]), set(r["oracle"]), set(r["moracle"])
@@ -475,8 +580,8 @@ def run(res, tier, seed):
             for o in ocs:
                 kinds[o[0]] = kinds.get(o[0], 0) + 1
     res.cov["histogram"] = {"files_per_partition": {str(k): sum(1 for c in cases if len(c["files"]) == k) for k in range(1, 10)},
-                            "outcome_kinds": kinds, "in_guard": sum(1 for c in cases if in_guard(c)),
-                            "excluded_class": sum(1 for c in cases if excluded_class(c)),
+                            "outcome_kinds": kinds, "kill_before_upload": sum(1 for c in cases if in_guard(c)),
+                            "kill_after_upload_then_retry_logic": sum(1 for c in cases if excluded_class(c)),
                             "jobs_run": sum(co["jobs_run"] for o in obs for co in o["cycles"]),
                             "with_dedup_metadata": sum(1 for c in cases if any(f["meta"] != "none" for f in c["files"]))}
     res.cov["samples"] = [{"case": {k: cases[i][k] for k in ("min_files", "max_batch", "cycles")}, "files": len(cases[i]["files"]),
@@ -507,8 +612,7 @@ def run(res, tier, seed):
         res.violation("proof obligation(s) no longer check: " + "; ".join(x for _, x in failed),
                       {"kind": "obligation-failed", "theorems": [t for t, _ in failed], "detail": [x for _, x in failed], "params": params},
                       no_input=True, suffix="obligation")
-    # disagreements: inside the excluded class a passing oracle means the finding was repaired (no alarm)
-    real_dis = [i for i in sorted(dis) if not (excluded_class(cases[i]) and i not in orf)]
+    real_dis = sorted(dis)
     if real_dis:
         c = cases[real_dis[0]]
 
